@@ -52,6 +52,10 @@ pub struct Case {
     pub exit_code: u8,
     pub threads: usize,
     pub input_by_output_name: bool,
+    /// the failing command fails only the first time it is executed (it leaves a flag file):
+    /// its non-zero status must still fail the build, and it must not be run again
+    #[serde(default)]
+    pub fails_once: bool,
 }
 
 fn gen_case(c: &mut Choices) -> Case {
@@ -90,6 +94,7 @@ fn gen_case(c: &mut Choices) -> Case {
         exit_code: if c.chance(1, 5) { if c.chance(1, 2) { *c.pick(&[1u8, 2, 3, 42, 126, 127, 255]) } else { 1 + c.below(200) as u8 } } else { 0 },
         threads: 1 + c.below(4),
         input_by_output_name: c.chance(1, 2),
+        fails_once: c.chance(1, 2),
     }
 }
 
@@ -161,8 +166,21 @@ pub fn check(case: &Case, st: &mut Stats) -> Check {
         args.push(l.trim_end().to_string());
     }
     text.push_str("B\n");
+    let flag = r.join("flag");
+    let runs_log = r.join("runs.log");
+    let failing_cmd = if case.fails_once && case.dumper.is_none() {
+        format!(
+            "echo run >> {}; if [ -e {} ]; then echo again; else touch {}; exit {}; fi",
+            runs_log.display(),
+            flag.display(),
+            flag.display(),
+            case.exit_code
+        )
+    } else {
+        format!("exit {}", case.exit_code)
+    };
     if case.exit_code != 0 {
-        text.push_str(&format!("-TXTPP#run exit {}\n", case.exit_code));
+        text.push_str(&format!("-TXTPP#run {failing_cmd}\n"));
     }
     std::fs::write(&source, &text).expect("write source");
     let command = args.join(" ");
@@ -291,6 +309,15 @@ pub fn check(case: &Case, st: &mut Stats) -> Check {
             ),
         );
     }
+    if case.exit_code != 0 && case.fails_once && case.dumper.is_none() {
+        let n = std::fs::read_to_string(&runs_log).map(|s| s.lines().count()).unwrap_or(0);
+        if n != 1 {
+            return viol(
+                "C17 failing-command-run-again",
+                format!("the command exited with status {} and was executed {n} times in one run", case.exit_code),
+            );
+        }
+    }
     let src_dir_c = src_dir.canonicalize().unwrap().display().to_string();
     match &case.dumper {
         None => {
@@ -324,7 +351,7 @@ pub fn check(case: &Case, st: &mut Stats) -> Check {
             let expected_cmds: Vec<String> = {
                 let mut v = vec!["pwd".to_string(), "echo $TXTPP_FILE".to_string(), command.clone()];
                 if case.exit_code != 0 {
-                    v.push(format!("exit {}", case.exit_code));
+                    v.push(failing_cmd.clone());
                 }
                 v
             };
